@@ -680,6 +680,50 @@ class C13(EHistCheck):
                    "clone is shallow (nested lists stay shared), as the language documents"]
 
 
+# ---- scenarios outside the alphabet of the search: a map written through keys / values that are references INTO THE SAME MAP
+SELFREF = {
+    "key-read-out-of-the-same-map": (["m = map[int, int] {1: 2, 2: 3}", "m[m[1]] = 50", "print get m[2]", "print m.len()"], ["50", "2"]),
+    "key-and-value-read-out-of-the-same-map": (["m = map[int, int] {1: 2, 2: 3}", "m[m[1]] = get m[1]", "print get m[2]", "print get m[1]"], ["2", "2"]),
+    "op-assignment-with-a-key-read-out-of-the-same-map": (["m = map[int, int] {1: 2, 2: 3}", "m[m[1]] += 4", "print get m[2]", "print get m[1]"], ["7", "2"]),
+    "value-read-out-of-the-same-map-new-key": (["m = map[int, int] {1: 2}", "m[5] = get m[1]", "m[1] = 9", "print get m[5]", "print m.len()"], ["2", "2"]),
+    "replace-with-a-value-read-out-of-the-same-map": (["m = map[int, int] {1: 2, 2: 3}", "print m.replace(2, get m[1])", "print get m[2]"], ["3", "2"]),
+    "list-element-written-with-an-element-of-the-same-list": (["l: [int...] = [1, 2, 3]", "l[0] = l[2]", "l[2] = 7", "print l"], ["[3, 2, 7]"]),
+    "list-pushed-with-its-own-element": (["l: [int...] = [1, 2]", "l.push(l[0])", "l[0] = 9", "print l"], ["[9, 2, 1]"]),
+}
+
+
+def _c13_layers(self, tier):
+    return [("writes-through-references-into-the-same-container", [("selfref", n, h) for n in SELFREF for h in ("module", "fn")])] + EHistCheck.layers(self, tier)
+
+
+def _c13_describe(self, case):
+    if case[0] == "selfref":
+        return {"scenario": case[1], "host": case[2]}
+    return EHistCheck.describe(self, case)
+
+
+def _c13_run_case(self, case):
+    if case[0] != "selfref":
+        return EHistCheck.run_case(self, case)
+    from ..core import driver
+    lines, exp = SELFREF[case[1]]
+    src = "\n".join(lines if case[2] == "module" else ["host = fn() {"] + ["\t" + l for l in lines] + ["}", "host()"]) + "\n"
+    res = driver.run_ms(src)
+    if driver.compile_rejected(res):
+        return {"outcome": "selfref-rejected", "nontrivial": False, "tags": ["selfref-rejected"], "show": res.out[-300:]}
+    viol = []
+    if res.exit != 0 or res.lines() != exp:
+        viol.append({"sig": {"kind": "self-referential-write", "scenario": case[1], "host": case[2]},
+                     "what": f"{case[1]} ({case[2]}): expected {exp}, got exit {res.exit} ({res.cls}) and {res.lines()} {res.err[-200:]}",
+                     "detail": {"files": {"x.ms": src}, "res": res.brief(), "expected_lines": exp}})
+    return {"outcome": "selfref-ok" + ("-DIFF" if viol else ""), "viol": viol, "nontrivial": True, "tags": ["selfref"]}
+
+
+C13.layers = _c13_layers
+C13.describe = _c13_describe
+C13.run_case = _c13_run_case
+
+
 def register_corpus(register):
     m = ListMapModel()
     hs = []
